@@ -332,7 +332,7 @@ class CodeGenerator(nunavut._generators.AbstractGenerator):
         if self._post_processors is not None:
             for pp in self._post_processors:
                 if isinstance(pp, nunavut._postprocessors.LinePostProcessor):
-                    line_pps.append(pp)
+                    line_pps.append(pp.for_new_file())
                 elif isinstance(pp, nunavut._postprocessors.FilePostProcessor):
                     file_pps.append(pp)
                 else:
@@ -943,7 +943,8 @@ class SupportGenerator(CodeGenerator):
                 self._generate_header(resource, target, is_dryrun, allow_overwrite)
                 generated.append(target)
             else:
-                self._copy_header(resource, target, is_dryrun, allow_overwrite, line_pps, file_pps)
+                fresh_line_pps = [line_pp.for_new_file() for line_pp in line_pps]
+                self._copy_header(resource, target, is_dryrun, allow_overwrite, fresh_line_pps, file_pps)
                 generated.append(target)
         return generated
 
